@@ -63,6 +63,7 @@ Obl(e) ==
          <<"id-stable-and-injective", e.ok => BindOK(e.idx, IdxSpec(e.c, e.o))>>,
          <<"id-is-hkdf-reference", e.ok => e.ref_ok>>,
          <<"issuer-key-is-reference", e.brk_ref_ok>> >>
+    [] e.op = "Issuance" -> << <<"beyond:honest-issuance-completes", e.ok>> >>   \* (property C01; here an observation)
     [] e.op = "Retained" -> << <<"returned-ids-keep-their-value", e.unchanged>> >>
     [] e.op = "Snapshot" -> <<
          <<"client-indices-match-model", SnapOK(e.snap, intern, cache)>> >>
